@@ -479,3 +479,34 @@ func minInt(a, b int) int {
 	}
 	return b
 }
+
+// Region is a byte range of a valid file with its grammatical kind.
+type Region struct {
+	Kind     string
+	Off, End int
+}
+
+// Regions returns the region map of a successfully parsed file (zero-length
+// regions are omitted except the BEND markers).
+func (r XZResult) Regions() []Region {
+	var out []Region
+	add := func(k string, off, end int) {
+		if end > off || k == "BEND" {
+			out = append(out, Region{k, off, end})
+		}
+	}
+	for _, s := range r.Streams {
+		add("SHDR", s.Off, s.Off+12)
+		for _, b := range s.Blocks {
+			add("BHDR", b.HdrOff, b.HdrOff+b.HdrLen)
+			add("DATA", b.DataOff, b.DataOff+b.CSize)
+			add("BPAD", b.DataOff+b.CSize, b.CheckOff)
+			add("BCHECK", b.CheckOff, b.CheckOff+b.CheckLen)
+			add("BEND", b.CheckOff+b.CheckLen, b.CheckOff+b.CheckLen)
+		}
+		add("INDEX", s.IdxOff, s.IdxOff+s.IdxSize)
+		add("FOOTER", s.FtrOff, s.FtrOff+12)
+		add("SPAD", s.End, s.End+s.PadAfter)
+	}
+	return out
+}
